@@ -5,7 +5,7 @@ V = os.path.dirname(os.path.dirname(os.path.abspath(__file__)))
 props = [json.loads(l) for l in open(os.path.join(V, 'properties.jsonl'))]
 entries = {}
 claimed = set(open(os.path.join(V, 'props', 'claimed.txt')).read().split())
-for p in sorted(glob.glob(os.path.join(V, 'props', '*.manifest.json'))):
+for p in sorted(glob.glob(os.path.join(V, 'props', 'c[0-9][0-9].manifest.json'))):
     e = json.load(open(p))
     if e['property_id'] in claimed: entries[e['property_id']] = e
 na_reasons = json.load(open(os.path.join(V, 'props', 'not_applicable.json'))) if os.path.exists(os.path.join(V, 'props', 'not_applicable.json')) else {}
@@ -29,3 +29,10 @@ man = {
 }
 json.dump(man, open(os.path.join(V, 'MANIFEST.json'), 'w'), indent=1)
 print('claimed:', sorted(entries), ' not claimed:', [x['property_id'] for x in man['not_applicable']])
+
+# never leave an invalid MANIFEST behind: minimal structural validation (the full schema is checked by python3-vt where available)
+REQUIRED = ('property_id', 'quick_cmd', 'evidence_file', 'level_claimed', 'level_note')
+_m = json.load(open(os.path.join(V, 'MANIFEST.json')))
+_bad = [c.get('property_id') for c in _m['checks'] if any(k not in c for k in REQUIRED)]
+if _bad:
+    print('INVALID MANIFEST entries:', _bad); sys.exit(1)
